@@ -315,6 +315,18 @@ func ruleM6(c *Ctx) {
 			// the extent is a difference of positions (coefficients sum to 0): it does not change when the
 			// URI sits elsewhere in its buffer
 			okf = spanCoef == 1 && f.C == 1 && others >= 2 && sum == 0
+			// the comparison itself must not add in the 16-bit offset type (start + span can wrap; end - start cannot
+			// go below zero because end >= start)
+			if bo, ok := iff.Cond.(*ssa.BinOp); ok {
+				for _, opnd := range []ssa.Value{bo.X, bo.Y} {
+					if ad, ok := stripNarrow(opnd).(*ssa.BinOp); ok && ad.Op == token.ADD {
+						if bits, _ := intBits(ad.Type()); bits <= 16 {
+							okf = false
+							why += " — one side is a sum computed in a " + itoa(bits) + "-bit type, which can wrap"
+						}
+					}
+				}
+			}
 		}
 		c.check(okf, "M6", key, iff.Cond.Pos(), "the refusal is taken exactly when the URI extent exceeds the length of the target span (refusal edge: "+why+"; expected span.Len - (end - start) + 1 <= 0, the extent a difference of positions): a span at least as long as the URI is never refused")
 	}
